@@ -369,6 +369,9 @@ func (a *attrChecker) raw(s *attrSpec, v []byte, tx [12]byte) {
 				outcome = "accepted"
 			}
 			a.cls["raw:"+s.name+":"+shape+":"+outcome]++
+			if a.cls["raw:"+s.name+":"+shape+":"+outcome] == 1 && shape != "malformed(wrong-size)" {
+				a.r.Sample(map[string]any{"case": c, "reference": shape, "denotes": val, "decoder": outcome, "returned": got})
+			}
 			kind, detail := judge(got, err, val, valid, canonical)
 			if kind == "" {
 				continue
@@ -380,7 +383,7 @@ func (a *attrChecker) raw(s *attrSpec, v []byte, tx [12]byte) {
 			if stale {
 				// Only blame the used target if the fresh target was fine.
 				if k2, _ := judgeFresh(s, m, val, valid, canonical); k2 == "" {
-					sig = s.name + ":raw:used-target:" + kind
+					sig = s.name + ":used-target:" + kind
 				} else {
 					continue // same defect already reported for the fresh target
 				}
@@ -508,7 +511,12 @@ func (a *attrChecker) roundTrip(s *attrSpec, tx [12]byte, want string, inDomain 
 		case err != nil:
 			decodeOK = false
 		case got != want && stale:
-			violate("used-target:different-value", "GetFrom into a used target returned "+got)
+			a.r.Violate(rep.Violation{
+				Oracle:    "decode(encode(v)) == v also when GetFrom writes into a variable that held another value",
+				Signature: s.name + ":used-target:different-value",
+				Detail:    fmt.Sprintf("value %s: GetFrom into a target that held another value returned %s", want, got),
+				Replay:    c,
+			})
 		case got != want:
 			violate("different-value", "GetFrom returned "+got)
 		}
@@ -626,8 +634,8 @@ func TestC11Attrs(t *testing.T) {
 	sTrans := specByName(specs, "requested-transport")
 	sFam := specByName(specs, "requested-address-family")
 	sweep(r, "RequestedTransport/RequestedAddressFamily.AddTo/GetFrom", shard, 256, nshards, describe, func(b int) bool {
-		a.roundTrip(sTrans, tx0, strconv.Itoa(b), true, proto.RequestedTransport{Protocol: proto.Protocol(b)}.AddTo)     //nolint:gosec
-		a.roundTrip(sFam, tx0, strconv.Itoa(b), b == 1 || b == 2, proto.RequestedAddressFamily(b).AddTo) //nolint:gosec
+		a.roundTrip(sTrans, tx0, strconv.Itoa(b), true, proto.RequestedTransport{Protocol: proto.Protocol(b)}.AddTo) //nolint:gosec
+		a.roundTrip(sFam, tx0, strconv.Itoa(b), b == 1 || b == 2, proto.RequestedAddressFamily(b).AddTo)             //nolint:gosec
 
 		return true
 	})
@@ -676,9 +684,6 @@ func TestC11Attrs(t *testing.T) {
 
 		return true
 	})
-	if shard == 0 {
-		r.Sample(map[string]any{"part": "attrs", "example": "EVEN-PORT raw 80 -> ReservePort=true; raw 00 80 (len 2) -> error"})
-	}
 	r.Bound = 64
 }
 
